@@ -25,25 +25,35 @@ CHECK_CORR = 'check_corr'
 CHECK_SPEC = 'check_spec'
 SHARD = 200
 RULE = ('scope stacks: DictScope root (values = small integers / dyadic rationals, volatile subset, sometimes a volatile '
-        'name that is not a key), then up to 6 layers of MappedScope (1-3 expressions over + - x, each variable at most '
-        'once, mostly over available names, sometimes a missing one), RangeScope (fresh index / index shadowing a '
-        'constant / a volatile name / a mapped name) and JointScope (1-3 entries over independently generated '
-        'sub-stacks, sometimes sharing one object); histories of 4-14 operations from {get, in, iter, len, keys, items, '
-        'as_dict, get_volatile_parameters, change_constants, ==/hash against a variant} on one object graph; '
-        'thorough adds all stacks of <= 3 layers over 3 names with a fixed full history.  Non-trivial = at least two '
-        'layers and at least one layer that is not a DictScope; distinct = distinct canonical JSON.')
+        'name that is not a key), then up to 6 layers of MappedScope (1-3 expressions over + - x /const Min Max, mostly '
+        'over available names, sometimes a missing one; 10 % expressions whose value does not depend on a variable they '
+        'mention: 0*x, x-x (sympy cancels x), (x+1)(x-1)-x*x, Min+Max-x (sympy keeps x)), RangeScope (fresh index / index '
+        'shadowing a constant / a volatile name / a mapped name) and JointScope (1-3 entries over independently '
+        'generated sub-stacks, sometimes sharing one object); histories of 4-14 operations from {get, in, iter, len, '
+        'keys, items, as_dict, get_volatile_parameters keys, get_volatile_parameters expressions evaluated at the '
+        'current and at changed constants, change_constants, ==/hash against a variant} on one object graph; thorough '
+        'adds all stacks of <= 3 layers over 3 names (complete for the 4 roots with a volatile constant, 25 % of the '
+        '3-layer stacks for the 2 roots without) with a fixed full history.  Non-trivial = at least two layers and at '
+        'least one layer that is not a DictScope; distinct = distinct canonical JSON.')
 TRUSTED = [
     'Coq 8.16.1 kernel + vm_compute (no native_compute)',
-    'sympy / qupulse.expressions evaluate + - x over small integers and dyadic rationals exactly and report the '
-    'syntactic free variables of the generated expressions (each variable occurs once; checked on every case)',
+    'sympy / qupulse.expressions evaluate + - x /const Min Max over small integers and dyadic rationals exactly; '
+    'Expression.variables are the free symbols of the tree sympy holds (checked on every expression; when sympy '
+    'cancels a variable while building the object the model receives the tree sympy holds, value-checked against the '
+    'source expression); recursive_substitution (evaluate_symbolic) preserves values',
     'frozendict behaves as an immutable dict',
-    'harness: generators, scope builder, exact number conversion (as_integer_ratio), Gallina printers',
+    'harness: generators, scope builder, sym_to_json, exact number conversion (as_integer_ratio), Gallina printers',
 ]
 ASSUMPTIONS = [
-    'expressions are restricted to + - x over rationals; "depends on" is syntactic dependence (sympy cancels e.g. v*0, '
-    'such expressions are not generated)',
+    'expressions are restricted to + - x, division by a non-zero constant, Min, Max over rationals',
+    '"depends on a volatile parameter" is read as syntactic dependence on the variables of the expression object '
+    '(what the code computes); proved to over-approximate semantic dependence (C13_unreported_is_constant), the '
+    'converse is refuted (C13_semantic_dependence_refuted)',
+    'the dependency-expression theorem is stated for environments that extend every DictScope root (roots of a joint '
+    'scope that disagree on a shared name have no such environment)',
     'cross-class scope comparisons (e.g. JointScope == DictScope, which raises AttributeError) are not part of the property',
     'KeyError and ParameterNotProvidedException are the same observable error kind (JointScope raises a plain KeyError)',
+    'hash values are not modelled (eq => equal hash is observed on the implementation only)',
 ]
 
 NAMES = ['p%d' % i for i in range(8)]
@@ -528,8 +538,9 @@ def exhaustive_small(rng, frac):
     for root in roots:
         for depth in range(0, 4):
             for combo in itertools.product(layers, repeat=depth):
-                if depth == 3 and rng.random() > frac:
-                    continue
+                if depth == 3 and (frac <= 0.0 or (not root['vol'] and rng.random() > frac)):
+                    continue        # thorough: ALL 3-layer stacks over the roots with a volatile constant, a sample
+                                    # over the two roots without one (volatility is trivially empty there)
                 s = root
                 for kind, n, e in combo:
                     s = {'t': 'mapped', 'o': s, 'm': [[n, e]]} if kind == 'mapped' else \
@@ -575,7 +586,7 @@ def gen_cases(rng, tier, ctx):
         ops = rnd_ops(rng, s, rng.randint(4, 14))
         cases.append({'kind': 'hist', 'scope': s, 'ops': ops, 'src': 'malformed' if malformed else 'random'})
     if tier == 'thorough':
-        cases.extend(exhaustive_small(rng, 0.35))
+        cases.extend(exhaustive_small(rng, 0.25))
     else:
         ex = exhaustive_small(rng, 0.0)
         cases.extend(c for c in ex if rng.random() < 0.18)
@@ -937,7 +948,7 @@ def search_failing(ctx, broken):
     """specification oracle (Coq check_spec) against the implementation on a fresh, larger stream"""
     import random
     rng = random.Random(ctx['seed'] * 7919 + 13)
-    cases = gen_cases(rng, 'quick', ctx) + exhaustive_small(rng, 0.05)
+    cases = gen_cases(rng, 'quick', ctx) + [c for c in exhaustive_small(rng, 0.25) if rng.random() < 0.06]
     bad = _spec_failing(cases, ctx, 'search')
     if bad:
         c, o = bad[0]
@@ -948,13 +959,19 @@ def search_failing(ctx, broken):
 
 MANIFEST = {
     'level_text': 'Proof: an executable Gallina model of DictScope / MappedScope / RangeScope / JointScope with the '
-                  'memoisation fields as explicit state is proved (all stacks, all histories, unbounded) to agree on '
-                  'every access path with the independently defined denotation, to be insensitive to cache state, to '
-                  'report exactly the parameters that depend on a volatile constant, and to make change_constants '
-                  'equal to rebuilding; the model is tied to the code by an exact correspondence check of operation '
-                  'histories on one object graph.',
-    'level_note': 'Trusted: Coq kernel, sympy evaluation of + - x on small dyadic rationals, frozendict, harness. '
-                  'Expressions are restricted to + - x; dependence is syntactic; cross-class scope equality is out of scope.',
-    'technique': 'Coq proof (induction over the scope stack, cache-refinement invariant) + correspondence check',
+                  'memoisation fields (incl. the cached name -> dependency-expression dict) as explicit state is proved '
+                  '(all stacks, all histories, unbounded) to agree on every access path with the independently defined '
+                  'denotation, to be insensitive to cache state (also to caches shared between joint-scope entries), to '
+                  'report exactly the parameters that depend syntactically on a volatile constant (which covers every '
+                  'semantic dependence), to report dependency expressions that evaluate, at the current and at changed '
+                  'volatile constants, to the value in the scope rebuilt from those constants, to make change_constants '
+                  'equal to rebuilding, and to have an __eq__ that is an equivalence; the model is tied to the code by an '
+                  'exact correspondence check of operation histories on one object graph.',
+    'level_note': 'Trusted: Coq kernel, sympy evaluation/substitution of + - x /const Min Max on small dyadic rationals, '
+                  'frozendict, harness. Dependence is syntactic (over-approximation proved); hash values and cross-class '
+                  'scope equality are not modelled; shared sub-scope objects are covered by the cache invariant, not by '
+                  'an explicit heap.',
+    'technique': 'Coq proof (induction over the scope stack, cache-refinement invariant, substitution lemma) + '
+                 'correspondence check',
     'design_ref': 'DESIGN.md §5 C13',
 }
